@@ -299,7 +299,7 @@ def main():
                         frame.fields["exprs_to_eval"].items.append((stv, cexpr))
                 return {"I": I, "r": r, "after": after_exit, "cont": cont, "inner_kinds": inner_kinds, "pre": pre,
                         "nbase": len(base), "base": base}
-            res = explore(runb, max_paths=20000)
+            res = explore(runb, max_paths=400000)
             C.note_paths(res)
             n_ok = 0
             for i, r in enumerate(res):
